@@ -376,6 +376,8 @@ class MiniEval:
             raise Raised()
       if e.id in ("None", "True", "False"):
         return {"None": None, "True": True, "False": False}[e.id]
+      if r is None and e.id in ("str", "int", "float", "bool", "list", "tuple", "dict", "set", "bytes", "Fraction"):
+        return self._BUILTIN_TYPES[e.id]       # the type object itself (`type(x) is str`)
       try:
         return self.ce.ev(f.module, e, f.cls)
       except NotConst:
@@ -783,6 +785,8 @@ class MiniEval:
           ci_ = self.ix.classes.get(args[0].cls)
           if ci_ is not None:
             return ci_
+        if isinstance(args[0], (str, int, float, Fraction, list, tuple, set, bytes, bool)) or args[0] is None or (isinstance(args[0], dict) and not args[0].get("__record__")):
+          return type(args[0])
         raise NotConst("type() of a value without a class of the package")
       if b in ("ord", "chr") and len(args) == 1:
         try:
